@@ -302,6 +302,9 @@ def check_sibling_sources(out: Outcome, kind, rng, root):
     species = ['Li', 'Li', 'O']
     shared = Path(tempfile.mkdtemp(prefix=f'c16_sib_{kind}_', dir=root))
     tags = ['300K', '500K', '700K'][: int(rng.integers(2, 4))]
+    # vasprun files are also kept under one stem with different LAST suffixes (md.xml next to its predecessor md.bak)
+    last_suffix = kind == 'vasprun' and bool(rng.integers(2))
+    name_of = (lambda tag: f'md.{ {"300K": "xml", "500K": "bak", "700K": "prev"}[tag] }') if last_suffix else (lambda tag: f'vasprun.{tag}.xml')
     try:
         runs = []
         for tag in tags:
@@ -312,7 +315,7 @@ def check_sibling_sources(out: Outcome, kind, rng, root):
                 if kind == 'vasprun':
                     src = mkfiles.write_vasprun(iso, lat, species, frames)
                     ref = quiet_call(Trajectory.from_vasprun, xml_file=src)
-                    dst = shared / f'vasprun.{tag}.xml'
+                    dst = shared / name_of(tag)
                     shutil.copy(src, dst)
                     runs.append((tag, dict(xml_file=str(dst)), ref))
                 else:
